@@ -28,6 +28,11 @@
 //!      accepted where the venue encodes the side in the sign; any time stamp the message carries);
 //!   R5 a message for a market nobody subscribed yields only `Err`s that denote an unidentifiable
 //!      subscription – never an event, never silence.
+//! Soundness round: the ORDER in which the events of one batch payload come out is free on every way; an error is the
+//! unidentifiable-subscription error if it IS the library's `SocketError::Unidentifiable` (as `DataError`) for some
+//! id - whatever its wording - or says so in words (`denotes_unidentifiable`); the `indexed-keyed` flavour pairs the
+//! helper's output with the menu by the instrument named, not by position / count; the venue model of the request
+//! side reads both spellings Coinbase documents (product ids at the top level or per channel object).
 //! Added by the hardening rounds: a fifth flavour `indexed-keyed` (`Keyed<InstrumentIndex, MarketDataInstrument>`
 //! from the real `index_market_data_subscription_batches`; R2 also demands that the index it assigns is the index of
 //! the instrument the user named); the `dynamic` way in (real `validate_batches` before the mapper); R4 also judges
@@ -431,9 +436,16 @@ impl Flav for Keyed<InstrumentIndex, MarketDataInstrument> {
         let subs: Vec<Subscription<ExchangeId, MarketDataInstrument, SubKind>> =
             spec.menu.iter().map(|m| Subscription::new(spec.id, MarketDataInstrument::new(m.base, m.quote, m.kind.real()), spec.sk.sub_kind())).collect();
         let out = index_market_data_subscription_batches(&indexed, vec![subs]).map_err(|e| format!("index_market_data_subscription_batches failed: {e}"))?;
-        let insts: Vec<Self> = out.into_iter().flatten().map(|s| s.instrument).collect();
-        if insts.len() != spec.menu.len() {
-            return Err(format!("index_market_data_subscription_batches returned {} subscriptions for {}", insts.len(), spec.menu.len()));
+        // the subscription of menu entry i is the returned one that names the same instrument (in which order the
+        // helper returns them, and whether it returns two identical subscriptions twice, is not prescribed)
+        let returned: Vec<Self> = out.into_iter().flatten().map(|s| s.instrument).collect();
+        let mut insts: Vec<Self> = Vec::with_capacity(spec.menu.len());
+        for (i, m) in spec.menu.iter().enumerate() {
+            let named = MarketDataInstrument::new(m.base, m.quote, m.kind.real());
+            match returned.get(i).filter(|r| r.value == named).or_else(|| returned.iter().find(|r| r.value == named)) {
+                Some(r) => insts.push(r.clone()),
+                None => return Err(format!("index_market_data_subscription_batches returned no subscription for {m:?} ({} returned for {} asked)", returned.len(), spec.menu.len())),
+            }
         }
         let same = |a: &MI, b: &MI| a.base.eq_ignore_ascii_case(b.base) && a.quote.eq_ignore_ascii_case(b.quote) && a.kind == b.kind;
         let problems = (0..insts.len())
@@ -994,7 +1006,17 @@ fn requested_markets(fam: Fam, requests: &[WsMessage]) -> Result<Vec<String>, St
             }
             Fam::Bybit => out.extend(strings(&v["args"])?.iter().filter_map(|a| a.split_once('.').map(|x| x.1.to_string()))),
             Fam::Bitmex => out.extend(strings(&v["args"])?.iter().filter_map(|a| a.split_once(':').map(|x| x.1.to_string()))),
-            Fam::Coinbase => out.extend(strings(&v["product_ids"])?),
+            // Coinbase documents two equivalent spellings: `product_ids` at the top level (applies to every listed
+            // channel) and per channel `{"name":"matches","product_ids":[..]}` objects inside `channels`
+            Fam::Coinbase => {
+                let per_channel: Vec<&Value> = v["channels"].as_array().map(|c| c.iter().filter(|x| x.is_object()).map(|x| &x["product_ids"]).collect()).unwrap_or_default();
+                if !v["product_ids"].is_null() || per_channel.is_empty() {
+                    out.extend(strings(&v["product_ids"])?);
+                }
+                for field in per_channel {
+                    out.extend(strings(field)?);
+                }
+            }
             Fam::Gateio => out.extend(strings(&v["payload"])?),
             Fam::Kraken => out.extend(strings(&v["pair"])?),
             Fam::Okx => {
@@ -1388,9 +1410,27 @@ struct Stats {
     request_checks: AtomicU64,
 }
 
+/// The library's own unidentifiable-subscription error (`SocketError::Unidentifiable` as a `DataError`) for a probe id,
+/// rendered like the observed errors and cut at the id: the error KIND the statement names, whatever its wording.
+fn unidentifiable_template() -> &'static Vec<String> {
+    static T: std::sync::OnceLock<Vec<String>> = std::sync::OnceLock::new();
+    T.get_or_init(|| {
+        const PROBE: &str = "vcheck-probe-id-7f3a";
+        let e = barter_data::error::DataError::from(barter_integration::error::SocketError::Unidentifiable(barter_integration::subscription::SubscriptionId::from(PROBE)));
+        format!("{e} / {e:?}").split(PROBE).map(str::to_string).collect()
+    })
+}
+
 fn denotes_unidentifiable(err: &str, market: &str) -> bool {
+    // (a) the observed error is the library's unidentifiable-subscription error for some id
+    let parts = unidentifiable_template();
+    let is_kind = parts.len() >= 2 && err.starts_with(parts[0].as_str()) && err.ends_with(parts[parts.len() - 1].as_str()) && {
+        let mut at = parts[0].len();
+        parts[1..].iter().all(|p| err[at..].find(p.as_str()).map(|k| at += k + p.len()).is_some())
+    };
+    // (b) or says so in words / names the market it could not identify
     let l = err.to_lowercase();
-    l.contains("unidentifiable") || l.contains("unidentified") || l.contains("unknown subscription") || err.contains(market)
+    is_kind || l.contains("unidentifiable") || l.contains("unidentified") || l.contains("unknown subscription") || err.contains(market)
 }
 
 fn near(a: f64, b: f64) -> bool {
@@ -1606,9 +1646,9 @@ fn judge_way(spec: &PairSpec, flavour: usize, via: usize, subset: &[usize], d: &
                     } else {
                         let vals_match = |ev: &ObsEv, exp: &Exp| ev.nums.len() == exp.nums.len() && ev.nums.iter().zip(&exp.nums).all(|(g, alts)| alts.iter().any(|w| near(*g, *w) || (g.is_nan() && w.is_nan())));
                         let mut evs: Vec<&ObsEv> = items.iter().map(|i| i.as_ref().unwrap()).collect();
-                        // the further ways re-emit the transformer's outputs; in which order the events of one batch come
-                        // out of them is not prescribed
-                        if way > 0 && evs.len() == 2 && !vals_match(evs[0], &msg.expect[0]) && vals_match(evs[0], &msg.expect[1]) {
+                        // in which order the events of one batch payload come out is not prescribed (the statement speaks of
+                        // each event, not of their sequence) - on any way
+                        if evs.len() == 2 && !vals_match(evs[0], &msg.expect[0]) && vals_match(evs[0], &msg.expect[1]) {
                             evs.swap(0, 1);
                         }
                         for (ev, exp) in evs.into_iter().zip(&msg.expect) {
@@ -1839,9 +1879,9 @@ pub fn run(ctx: &Ctx) -> Outcome {
             "prices / quantities are decimal strings with 2 and 8 decimals, mostly not exactly representable in binary, compared with 1e-9 relative tolerance".into(),
             "an L1 event's last_update_time, a Liquidation's time and an L2 book's time_engine (where the connector sets one) are exchange times of the message: judged like time_exchange (any time stamp the message carries), only where the message carries a time".into(),
             "the conversion into MarketEvent<_, DataKind> (DynamicStreams::select_all, the engine's path) is a wrapper: it must not change key, exchange, exchange time or values".into(),
-            "a venue streams the markets named in the subscribe requests; its request format is the one documented at the connector's Connector::requests (Binance stream names lower case, every other venue the spelling of its data messages); the channel part of a request is not judged".into(),
+            "a venue streams the markets named in the subscribe requests; its request format is the one documented at the connector's Connector::requests (Binance stream names lower case, every other venue the spelling of its data messages; Coinbase product ids at the top level or per channel object); the channel part of a request is not judged".into(),
             "an empty side of an L1 top of book is written by the venue as zero price and zero quantity (the value the connectors test for); the event may show that side as absent or as a zero level".into(),
-            "the exchange-stream and buffered ways are judged with R1-R5 like the direct way, except that the order of the events of one batch is free there; they are judged for a configuration only if the direct way reported nothing for it".into(),
+            "the order in which the events of one batch payload are emitted is free (on every way); the exchange-stream and buffered ways are judged with R1-R5 like the direct way, for a configuration only if the direct way reported nothing for it".into(),
             "`dynamic` front end: only validate_batches (validate, sort, dedup) and the re-wrapping are driven; the arms of DynamicStreams::init themselves open network connections and are not".into(),
         ],
     }
